@@ -167,6 +167,10 @@ def r2(ctx):
     for s in main:
         k = s.base.idx[0]
         rng = s.loop_ranges[-1]
+        if not isinstance(s.loops[-1].target, ast.Name):
+            ctx.unrecognised(upd, "per-cluster membership assignment iterates a tuple target, not the shape `for k in range(K): clusters[k].member_points = buckets[k]`",
+                             role="refresh:assign")
+            continue
         okr = s.base.base == Attr(self_, "clusters") and rng == Range(0, Attr(Attr(self_, "arguments"), "num_clusters")) and k == Sym(s.loops[-1].target.id)
         ctx.check(okr, upd, "membership is assigned for every cluster id in range(K)", line=s.stmt.lineno, role="refresh:range",
                   expected="for k in range(K): self.clusters[k].member_points = ...", found=f"{s.base} with range {rng}")
